@@ -4,6 +4,8 @@ From ZT Require Import Base Layers Run Buffer.
 Record case := {
   cbuffer : bool;
   ctests : list test;                       (* behaviours, executed in this order in one layer *)
+  redirects : list nat;                     (* tests that wrap their subtests in contextlib.redirect_stdout (they put the saved
+                                               sys.stdout back when the block is left) and then write phase-5 tokens *)
   writes : list (nat * nat * nat * nat);    (* (test, phase, k, token): the test writes the token at that phase *)
   err_toks : list nat;                      (* the tokens that are written to sys.stderr (the others to sys.stdout) *)
   o_out : list (nat * nat);                 (* real stdout: (0, t) failure/error header of test t, (1, tok) token, in order *)
@@ -16,8 +18,31 @@ Record case := {
 Definition wr (c : case) (t ph k : nat) : list nat :=
   flat_map (fun q => let '(t', ph', k', tok) := q in
                      if Nat.eqb t t' && Nat.eqb ph ph' && Nat.eqb k k' then [tok] else []) (writes c).
+(* the subtest section of a protocol (right after the body marker) and what follows it *)
+Fixpoint after_subs (ps : list pev) : list pev * list pev :=
+  match ps with
+  | PPhase 2 k :: r => let '(a, b) := after_subs r in (PPhase 2 k :: a, b)
+  | PRes RSubFail k :: r => let '(a, b) := after_subs r in (PRes RSubFail k :: a, b)
+  | PRes RSubErr k :: r => let '(a, b) := after_subs r in (PRes RSubErr k :: a, b)
+  | PRes RSubSkip k :: r => let '(a, b) := after_subs r in (PRes RSubSkip k :: a, b)
+  | _ => ([], ps)
+  end.
+Definition to_steps (wr : nat -> nat -> list nat) (ps : list pev) : list bstep :=
+  flat_map (fun p => match p with
+                     | PStart => [BStart] | PDecoSkip => [BDeco]
+                     | PPhase ph k => map BWrite (wr ph k)
+                     | PRes r _ => [BRes r] | PStop => [BStop] end) ps.
+Fixpoint steps_redirect (wr : nat -> nat -> list nat) (ps : list pev) : list bstep :=
+  match ps with
+  | [] => []
+  | PPhase 1 0 :: r => let '(subs, post) := after_subs r in
+                       to_steps wr (PPhase 1 0 :: subs) ++ BReinstall :: map BWrite (wr 5 0) ++ to_steps wr post
+  | p :: r => to_steps wr [p] ++ steps_redirect wr r
+  end.
+Definition steps_of (c : case) (t : nat) (b : test) : list bstep :=
+  if mem t (redirects c) then steps_redirect (wr c t) (proto b) else steps b (wr c t).
 Definition model_state (c : case) : bstate :=
-  run_tests (cbuffer c) (map (fun it => (fst it, steps (snd it) (wr c (fst it)))) (index_from 0 (ctests c))).
+  run_tests (cbuffer c) (map (fun it => (fst it, steps_of c (fst it) (snd it))) (index_from 0 (ctests c))).
 Definition model_seq (c : case) : list (nat * nat) := flatten_log (log (model_state c)).
 
 Definition pair_eqb (a b : nat * nat) := Nat.eqb (fst a) (fst b) && Nat.eqb (snd a) (snd b).
@@ -37,7 +62,7 @@ Definition tok_test (c : case) (tok : nat) : nat :=
   match find (fun q => let '(_, _, _, k) := q in Nat.eqb k tok) (writes c) with Some (t, _, _, _) => t | None => 0 end.
 (* tokens actually written: the phase they are scripted for is reached (per the unittest protocol model) *)
 Definition all_toks (c : case) : list nat :=
-  flat_map (fun it => flat_map (fun x => match x with BWrite tok => [tok] | _ => [] end) (steps (snd it) (wr c (fst it))))
+  flat_map (fun it => flat_map (fun x => match x with BWrite tok => [tok] | _ => [] end) (steps_of c (fst it) (snd it)))
            (index_from 0 (ctests c)).
 Definition failing (c : case) (t : nat) : bool :=
   match nth_error (ctests c) t with
